@@ -3,6 +3,7 @@ package wmptsim
 import (
 	"bytes"
 	"fmt"
+	"sort"
 
 	"github.com/0chain/common/core/util/wmpt"
 )
@@ -62,6 +63,31 @@ func (w *world) export(op WOp) {
 	}
 	var data []byte
 	var err error
+	if op.A > 0 && w.kv != nil {
+		// fault-injecting configuration: the A-th storage read of the export fails. The export may fail; the
+		// source trie must be none the worse for it: the export is simply asked for again.
+		// (chosen by key, not by ordinal: exports of more than 10 keys read storage from several goroutines)
+		e0 := w.kv.St.GetErrs
+		var sk []string
+		for k := range w.storeKeys() {
+			sk = append(sk, k)
+		}
+		sort.Strings(sk)
+		if len(sk) > 0 {
+			w.kv.FailKeys = map[string]bool{sk[op.A%len(sk)]: true}
+		}
+		if w.guard("GetPath (storage read fault)", func() { data, err = w.t.GetPath(keys) }) {
+			return
+		}
+		w.kv.FailKeys = nil
+		if w.kv.St.GetErrs > e0 {
+			w.stats.Inc("fault.any")
+			w.stats.Inc("fault.export-storage-read-error")
+			if err != nil {
+				w.stats.Inc("probe.export-failed-and-was-repeated")
+			}
+		}
+	}
 	if w.guard("GetPath", func() { data, err = w.t.GetPath(keys) }) {
 		return
 	}
